@@ -15,6 +15,9 @@
      csum16 l init      cpl16 (osum l init): the value stored in a checksum field
      valid_csum l       fold16 (sum16 l) = 65535   (valid_csumb: boolean form)
      eac M a b          end-around-carry add on an accumulator of modulus M (ADD; ADC $0)
+     fold_cpl32 sum     ^uint16(two fold steps of a uint32 sum)   (foldComplement)
+     fold_loop_cpl sum  ^uint16(fold loop of a uint32 sum)        (ipv4HdrChecksum, tcpipChecksum)
+     udp_fix c          UDP: a computed 0 is transmitted as 0xffff
 
    Main lemmas: fold16_mod, fold16_0_iff, fold16_le, fold16_unique, fold16_eq_iff, fold16_add_*,
    fold_step_fold16, fold_step2_32, fold_loop_32, fold_loop_64, reduce64_fold16,
@@ -655,3 +658,42 @@ Lemma valid_update S m m' :
 Proof.
   intros Hm HS HV Hnz Hc. apply fold16_ffff_iff. apply fold16_ffff_iff in HV. lia.
 Qed.
+
+(* ---------------------------------------------------------------------------------------------- *)
+(** * the fold-and-complement helpers of real code *)
+
+(* foldComplement(sum uint32): two unconditional fold steps, then ^uint16(sum) *)
+Definition fold_cpl32 (sum : N) : N := cpl16 (w16 (fold_step (fold_step sum))).
+
+Lemma fold_cpl32_spec sum : sum < 4294967296 -> fold_cpl32 sum = cpl16 (fold16 sum).
+Proof.
+  intros H. unfold fold_cpl32. rewrite fold_step2_32 by exact H.
+  unfold w16. rewrite N.mod_small by apply fold16_lt. reflexivity.
+Qed.
+
+(* `for sum>>16 != 0 { fold }; return ^uint16(sum)` on a uint32 accumulator *)
+Definition fold_loop_cpl (sum : N) : N := cpl16 (w16 (fold_loop 2 sum)).
+
+Lemma fold_loop_cpl_spec sum : sum < 4294967296 -> fold_loop_cpl sum = cpl16 (fold16 sum).
+Proof.
+  intros H. unfold fold_loop_cpl. rewrite fold_loop_32 by (try exact H; auto).
+  unfold w16. rewrite N.mod_small by apply fold16_lt. reflexivity.
+Qed.
+
+(* a uint32 accumulator holds the exact sum of fewer than 65537 words *)
+Lemma sum16_lt32 l : bytes_ok l = true -> N.of_nat (length l) <= 131072 -> sum16 l < 4294967296.
+Proof. intros Hok Hl. pose proof (sum16_bound_len l Hok). lia. Qed.
+
+(* RFC 768: a computed checksum of zero is transmitted as all ones; the region stays valid *)
+Definition udp_fix (c : N) : N := if c =? 0 then 65535 else c.
+
+Lemma udp_fix_valid S0 : fold16 (S0 + udp_fix (cpl16 (fold16 S0))) = 65535.
+Proof.
+  apply valid_csum_field_iff.
+  - unfold udp_fix. destruct (N.eqb_spec (cpl16 (fold16 S0)) 0); [lia|apply cpl16_le].
+  - unfold udp_fix. destruct (N.eqb_spec (cpl16 (fold16 S0)) 0) as [E|E]; [|left; reflexivity].
+    right. split; [reflexivity|]. unfold cpl16 in E. pose proof (fold16_le S0). lia.
+Qed.
+
+Lemma udp_fix_nonzero c : udp_fix c <> 0.
+Proof. unfold udp_fix. destruct (N.eqb_spec c 0); lia. Qed.
